@@ -13,7 +13,7 @@ import (
 
 func init() {
 	register("C03", runC03, propMeta{
-		Explanation: "Decides effect confinement and the conversion tables behind faithful access to injected data, for all programs: (I1) in DataContext every read, write or call through the local store is reachable only over the miss edge of a lookup of the same key in the injected table, so an injected name always wins; (I2) reflect mutators (Set, SetInt, SetUint, SetFloat, SetString, SetBool, SetComplex, SetMapIndex) occur only in core.SetAttributeValue, core.SetSingleValue and DataContext.SetMapVarValue, which are reachable only from Assignment.Evaluate and the key binding of ForRangeStmt; reflect Call occurs only in ExecFunc and InvokeFunction; the injected table is written only by Add/PluginLoader/Del — hence reads, comparisons and calls leave injected data untouched; (I3) conversion tables, row by row: ParamsTypeChange converts parameter i against In(i) of the same index, for each of the 12 numeric kinds to exactly that kind, reading the argument with the accessor of its own class tag (36 rows); getNumType maps prefix to tag; GetWantedValue converts to the target kind with the accessor of the target's class (12 rows); SetAttributeValue and SetSingleValue use the setter of the target's kind group, read the source with the accessor of the source's class, and store a signed or float source into an unsigned target only under a `>= 0` test; (I4) Args.Evaluate stores the i-th evaluated argument at index i and GetRawTypeValue returns element 0; (I5) every MapIndex result returned by MapVar.Evaluate is guarded by IsValid() with reflect.Zero of the element type on the other edge. ParamsTypeChange converts every declared parameter: its loop counts from 0 to NumIn() of the same function type. (I8) the field read by GetStructAttributeValue and set by SetAttributeValue is FieldByName(the given name) of the given object, or FieldByIndex with a path found for that name on the object's own reflect.Type (tables keyed by the Type accepted, by a printed name not). Not decided: reflect's own semantics, whether a particular value is representable, user functions. A call node yields the injected call's result: every return of FunctionCall / MethodCall / ThreeLevelCall.Evaluate hands on the first result of DataContext.ExecFunc / ExecMethod / ExecThreeLevel unchanged, so the name is looked up in the injected table on every call. What Assignment.Evaluate hands to SetMapVarValue / SetValue are the name and key fields of its own node, and a compound form reads the current value through that same node (target as compiled). In the three call nodes the only way to a return that avoids the Exec* call is the failure of the argument evaluation (call-always-made). The vector Args.Evaluate hands on is made in that call (make, a literal, or appends to one): ParamsTypeChange converts it in place, so a vector kept on the node would carry one callee's conversions into the next call.",
+		Explanation: "Decides effect confinement and the conversion tables behind faithful access to injected data, for all programs: (I1) in DataContext every read, write or call through the local store is reachable only over the miss edge of a lookup of the same key in the injected table, so an injected name always wins; (I2) reflect mutators (Set, SetInt, SetUint, SetFloat, SetString, SetBool, SetComplex, SetMapIndex) occur only in core.SetAttributeValue, core.SetSingleValue and DataContext.SetMapVarValue, which are reachable only from Assignment.Evaluate and the key binding of ForRangeStmt; reflect Call occurs only in ExecFunc and InvokeFunction; the injected table is written only by Add/PluginLoader/Del — hence reads, comparisons and calls leave injected data untouched; (I3) conversion tables, row by row: ParamsTypeChange converts parameter i against In(i) of the same index, for each of the 12 numeric kinds to exactly that kind, reading the argument with the accessor of its own class tag (36 rows); getNumType maps prefix to tag; GetWantedValue converts to the target kind with the accessor of the target's class (12 rows); SetAttributeValue and SetSingleValue use the setter of the target's kind group, read the source with the accessor of the source's class, and store a signed or float source into an unsigned target only under a `>= 0` test; (I4) Args.Evaluate stores the i-th evaluated argument at index i and GetRawTypeValue returns element 0; (I5) every MapIndex result returned by MapVar.Evaluate is guarded by IsValid() with reflect.Zero of the element type on the other edge. ParamsTypeChange converts every declared parameter: its loop counts from 0 to NumIn() of the same function type. (I8) the field read by GetStructAttributeValue and set by SetAttributeValue is FieldByName(the given name) of the given object, or FieldByIndex with a path found for that name on the object's own reflect.Type (tables keyed by the Type accepted, by a printed name not). Not decided: reflect's own semantics, whether a particular value is representable, user functions. A call node yields the injected call's result: every return of FunctionCall / MethodCall / ThreeLevelCall.Evaluate hands on the first result of DataContext.ExecFunc / ExecMethod / ExecThreeLevel unchanged, so the name is looked up in the injected table on every call. What Assignment.Evaluate hands to SetMapVarValue / SetValue are the name and key fields of its own node, and a compound form reads the current value through that same node (target as compiled). In the three call nodes the only way to a return that avoids the Exec* call is the failure of the argument evaluation (call-always-made). The vector Args.Evaluate hands on is made in that call (make, a literal, or appends to one): ParamsTypeChange converts it in place, so a vector kept on the node would carry one callee's conversions into the next call. After the host function was called every way to a return goes through GetRawTypeValue of its results: the call yields the first result whatever the others are.",
 		Assumptions: []string{"reflect accessors/setters behave as documented"},
 		Trusted:     commonTrusted,
 	})
@@ -343,6 +343,22 @@ func runC03(c *Ctx) {
 				}
 			})
 			c.Check("I4-positional", fmt.Sprintf("%s#call%d", fnName(f), k), okA && okR, in.Pos(), "the host function must be called with the caller's arguments coerced by ParamsTypeChange against that same function, and its results reduced by GetRawTypeValue")
+			// ... on every way from the call to a return: what the caller gets is the first result,
+			// whatever the other results are (a trailing error of the host function is not the call's error)
+			{
+				var reduce ssa.Instruction
+				eachInstr(f, func(i2 ssa.Instruction) {
+					if rc, isCall := i2.(*ssa.Call); isCall && calleeIs(rc, pCore, "", "GetRawTypeValue") && x.Origin(rc.Call.Args[0]) == ssa.Value(call) {
+						reduce = i2
+					}
+				})
+				at, round := pathExists(f, in, isReturn, func(i2 ssa.Instruction) bool { return i2 == reduce })
+				pos := in.Pos()
+				if round && at.Pos().IsValid() {
+					pos = at.Pos()
+				}
+				c.Check("I4-positional", fmt.Sprintf("%s#call%d/always-reduced", fnName(f), k), reduce != nil && !round, pos, "after the host function was called a return is reached without its results having gone through GetRawTypeValue: the call must yield the first result on every way")
+			}
 			// the method called is the one of that name on that object, found anew on every
 			// call: MethodByName(name) of the object given (a position remembered from another
 			// call or another type may be another method)
